@@ -32,6 +32,9 @@ func dcgRules(gr []J, dq bool) []string {
 	pb := ""
 	if b, _ := gr[5].(bool); b {
 		pb = ", [y]"
+		if a2, ok := gr[3].([]J); ok && a2[0] == "a" && a2[1] == "b" {
+			pb = ", [y,x]" // two terminals (GenDcg.tla: Db)
+		}
 	}
 	return []string{
 		fmt.Sprintf("s(V1) --> %s", body(gr[0])),
